@@ -379,6 +379,12 @@ def main():
     bad = scan_forbidden()
     if bad:
         proof_problems.append('forbidden vernacular: ' + '; '.join(bad[:5]))
+    if spec.get('tpl_check'):
+        # Model/HtmlTpl.v is GENERATED from /repo/stack/goroutines.tpl (scripts/gen_html_tpl.sh): it must be current
+        rc, out = run(['sh', os.path.join(VERIF, 'scripts', 'gen_html_tpl.sh'), '-check'], env=GOENV, timeout=600)
+        if rc != 0:
+            proof_problems.append('coq/theories/Model/HtmlTpl.v is not what scripts/gen_html_tpl.sh generates from /repo/stack/goroutines.tpl '
+                                  '(the template literals of the page model no longer match the code): ' + out.strip()[-300:])
     coqchk = None
     if tier == 'thorough' and spec.get('coqchk', True):
         coqchk = run_coqchk(prop)
